@@ -163,7 +163,17 @@ func (c *Calcium) doReplaceWorkload(
 					removeMessage.Success = true
 					return
 				},
-				nil,
+				func(ctx context.Context, failedByCond bool) error {
+					if failedByCond {
+						return nil
+					}
+					// the old workload is still there (it is restarted below): take the new one away again
+					newWorkload, err := c.GetWorkload(ctx, createMessage.WorkloadID)
+					if err != nil {
+						return err
+					}
+					return c.doRemoveWorkload(ctx, newWorkload, true)
+				},
 				c.config.GlobalTimeout,
 			)
 		},
